@@ -378,6 +378,10 @@ impl<'a> Printer<'a> {
                     }
                 }
                 '\r' => t.push_str("\\r"),
+                // an ASCII letter or digit may be spelled as a hex escape
+                c if c.is_ascii_alphanumeric() && self.lay.enabled && !self.in_slot && self.rng.chance(1, 24) => {
+                    t.push_str(&format!("\\x{:02x}", c as u32));
+                }
                 c => t.push(c),
             }
         }
